@@ -93,6 +93,50 @@ def truncation_sweep(ctx, exe, contents, step):
     return cases, size
 
 
+def key_collision_witnesses(ctx, exe):
+    """Two findings about the cache KEY (outside the Coq model, which takes paths as identities): keys are made with
+    to_string_lossy, and they are relative to the working directory while the cache file belongs to the project root.
+    Each scenario: cached run vs --no-sloc-cache twin."""
+    hits = []
+    env = {"RAYON_NUM_THREADS": "1"}
+
+    def pair(sb, args, cwd, now):
+        e = dict(env, SGV_NOW=str(now))
+        ca = sb.run(exe, args, cwd=cwd, env=e)
+        un = sb.run(exe, args + ["--no-sloc-cache"], cwd=cwd, env=e)
+        return ca[:2] != un[:2], ca[1][:300], un[1][:300]
+    # (a) cwd-relative keys: ./a.rs of the project root and ./a.rs seen from inside sub/, same second and size
+    with Sandbox("sgv-c12-") as sb:
+        sb.write(".sloc-guard.toml", "")
+        for rel, text in (("a.rs", "x=1;\nx=1;\n"), ("sub/a.rs", "x=1;\n// c\n")):
+            os.utime(sb.write(rel, text), (T0, T0))
+        sb.run(exe, ["stats", "files", "--format", "json"], cwd=os.path.join(sb.proj, "sub"), env=dict(env, SGV_NOW=str(T0 + 10)))
+        d, ca, un = pair(sb, ["--color", "never", "stats", "files", "--format", "json"], sb.proj, T0 + 20)
+        ctx.cov.setdefault("scripted_witnesses", {})["K12_cwd_relative_key"] = "reproduces" if d else "does not reproduce"
+        if d:
+            hits.append(("K12_cwd_relative_key", "cached %s / uncached %s" % (ca, un)))
+    # (b) lossy keys: two non-UTF-8 names with the same lossy spelling, same second and size
+    with Sandbox("sgv-c12-") as sb:
+        sb.write(".sloc-guard.toml", "")
+        os.makedirs(os.path.join(sb.proj, "src"))
+        names = (b"a\xff.rs", b"a\xfe.rs")
+        try:
+            for nm, text in zip(names, (b"x=1;\nx=1;\n", b"x=1;\n// c\n")):
+                fp = os.path.join(sb.proj.encode(), b"src", nm)
+                open(fp, "wb").write(text)
+                os.utime(fp, (T0, T0))
+            import subprocess
+            e = dict(sb.env, SGV_NOW=str(T0 + 10), **env)
+            subprocess.run([exe.encode(), b"check", b"--files", b"./src/" + names[0], b"--format", b"json"], cwd=sb.proj, env=e, capture_output=True, timeout=60)
+            d, ca, un = pair(sb, ["--color", "never", "stats", "summary", "--format", "json"], sb.proj, T0 + 20)
+            ctx.cov["scripted_witnesses"]["K12_lossy_key"] = "reproduces" if d else "does not reproduce"
+            if d:
+                hits.append(("K12_lossy_key", "cached %s / uncached %s" % (ca, un)))
+        except OSError:
+            ctx.cov["scripted_witnesses"]["K12_lossy_key"] = "file system refuses non-UTF-8 names"
+    return hits
+
+
 def run(ctx):
     bins, model = prepare(ctx)
     proofs_ok = proofs_step(ctx, PROP_FILES)
@@ -113,6 +157,14 @@ def run(ctx):
     n_bnd = 36 if quick else 600
     for _ in range(n_bnd):
         cases.append({"h": boundary_history(rng, contents, tab), "tag": "languages-boundary"})
+    groups = same_size_pairs(contents)
+    for _ in range(24 if quick else 400):
+        cases.append({"h": symlink_history(rng, contents, tab, groups), "tag": "symlink"})
+    for _ in range(16 if quick else 300):
+        p0, a0, t0 = (rng.choice(FILE_STEMS), rng.choice([1, 2, 3])), rng.randint(1, len(contents)), T0 + rng.randrange(0, 1000)
+        cases.append({"h": [("W", p0, a0, t0), ("X", rng.choice(CMDS), [], t0 + 2),
+                            ("C", "x", FOREIGN_VERSIONS[len(cases) % len(FOREIGN_VERSIONS)], p0, (50, 40, 5, 5, 0), len(cases) // 2 % 2),
+                            ("X", rng.choice(["check", "files", "summary"]), [], t0 + 3), ("X", rng.choice(CMDS), [], t0 + 4)], "tag": "foreign-version"})
     for _ in range(n_dir):
         cases.append({"h": directed_history(rng, contents, tab), "tag": "directed"})
     for _ in range(n_rand):
@@ -147,9 +199,9 @@ def run(ctx):
             dist["op:" + o[0]] = dist.get("op:" + o[0], 0) + 1
         seen_run, rewrites = False, False
         for o in c["h"]:
-            if o[0] == "X":
+            if o[0] in ("X", "XF"):
                 seen_run = True
-            elif o[0] in ("W", "R", "D", "L", "C") and seen_run:
+            elif o[0] in ("W", "R", "D", "L", "C", "K") and seen_run:
                 rewrites = True
         nontrivial += 1 if rewrites else 0
         for k in ("RW", "RR", "FORGE"):
@@ -171,7 +223,7 @@ def run(ctx):
     ctx.cov["traces_validated_against_impl"] = len(cases) - len(all_mism)
     ctx.cov["model_vs_impl_mismatches"] = len(all_mism)
     ctx.cov["rule"] = ("histories of Write(os.utime) / Delete / Rename / SetLanguages (custom languages, overriding built-in extensions) / Corrupt / Run(check, stats summary, stats files, snapshot; SGV_NOW) "
-                       "replayed on sgcli in a Sandbox; every Run executed twice (with and without --no-sloc-cache): evaluations = CLI invocations. Languages-boundary histories edit one definition so that only a list boundary, an empty item, the marker order, the name or the extension split changes, on a file the two definitions classify differently. Directed histories put a same-size rewrite in the second of a "
+                       "replayed on sgcli in a Sandbox; every Run executed twice (with and without --no-sloc-cache): evaluations = CLI invocations. Languages-boundary histories edit one definition so that only a list boundary, an empty item, the marker order, the name or the extension split changes, on a file the two definitions classify differently. Symlink histories name a link (own mtime old; target inside or outside the scanned tree) explicitly with check --files / stats <path>, edit, delete and re-create the target or re-point the link. Foreign-version histories replace cache.json by a well-formed file of every version 0..CACHE_VERSION+2 but the current one, same hash and metadata, other statistics, `ignored` absent or present. Directed histories put a same-size rewrite in the second of a "
                        "previous run, rename a same-(mtime,size) file over a cached path, or keep the rewrite one second apart; a truncation sweep cuts cache.json at every %d-th byte (size %d). "
                        "Compared: stdout+exit code of the pair (property oracle), per-file statistics / totals and cache.json entries against the extracted Coq model. "
                        "non-trivial = histories with at least one edit, rename, delete, configuration change or corruption between two runs" % (64 if quick else 8, csize))
@@ -180,10 +232,17 @@ def run(ctx):
                                                 "compute_config_hash is assumed injective on [languages] tables (hypothesis of the theorems); tied in the run: same table -> same hash, different tables -> different hashes",
                                                 "SGV_NOW clock hook, os.utime; mtime of a rename is preserved by the file system"]
     ctx.assumptions = ["wall-clock values of a history never decrease and a file's mtime is the second of its last write",
+                       "the cache key identifies the file: the model takes paths as identities (fails for non-UTF-8 names with the same lossy spelling and for runs from different working directories: findings K12_lossy_key, K12_cwd_relative_key, scripted witnesses in the run)",
+                       "a symbolic link named explicitly is, as fs::metadata / fs::read see it, another name for the target's content and mtime (model op Copy; the replay mirrors every change of the target on the link path)",
                        "single-owner extensions in [languages] (two custom languages claiming one extension: D23, C20)"]
     xcheck(ctx, cases, mlines, 12 if quick else 60)
     # ---------------- verdicts
     reported = 0
+    for klass, what in key_collision_witnesses(ctx, exe):
+        if not ctx.known(klass, what):
+            ctx.violation({"kind": "property-oracle", "what": "cached invocation differs from its --no-sloc-cache twin (scripted key-collision scenario)",
+                           "class_not_listed": klass, "observed": what})
+            reported += 1
     for c, fails, klass in all_fails:
         if klass and ctx.known(klass, "cached run differs from --no-sloc-cache"):
             continue
@@ -198,10 +257,10 @@ def run(ctx):
         extra = []
         for c, _ in all_mism[:6]:
             h = c["h"]
-            last_t = max([o[3] for o in h if o[0] in ("W", "X")] or [T0])
+            last_t = max([o[3] for o in h if o[0] in ("W", "X", "XF")] or [T0])
             for k in range(2, len(h) + 1):
-                if h[k - 1][0] != "X":
-                    extra.append({"h": h[:k] + [("X", "files", [], max([o[3] for o in h[:k] if o[0] in ("W", "X")] or [T0]))], "tag": "search-prefix", "ctexts": c["ctexts"], "cwire": c["cwire"]})
+                if h[k - 1][0] not in ("X", "XF"):
+                    extra.append({"h": h[:k] + [("X", "files", [], max([o[3] for o in h[:k] if o[0] in ("W", "X", "XF")] or [T0]))], "tag": "search-prefix", "ctexts": c["ctexts"], "cwire": c["cwire"]})
             for kind in CMDS:
                 extra.append({"h": h + [("X", kind, [], last_t), ("X", kind, [], last_t + 2)], "tag": "search-extend", "ctexts": c["ctexts"], "cwire": c["cwire"]})
         for _ in range(2 * n_dir):
@@ -239,27 +298,34 @@ def run(ctx):
 
 
 def coq_history(c):
+    """The model-level history (ops_wire) as a Gallina term."""
     def cp(p):
-        return "(%d,%d)" % p
+        a, b = p.split(".")
+        return "(%s,%s)" % (a, b)
     ops = []
-    for o in c["h"]:
-        if o[0] == "W":
-            ops.append("Write %s %d %d" % (cp(o[1]), o[2], o[3]))
-        elif o[0] == "D":
-            ops.append("Delete %s" % cp(o[1]))
-        elif o[0] == "R":
-            ops.append("Rename %s %s" % (cp(o[1]), cp(o[2])))
-        elif o[0] == "L":
-            ops.append("SetLanguages [%s]" % ";".join("(%d,%d)" % x for x in o[1]))
-        elif o[0] == "C":
-            if o[1] == "f":
-                k = "(KForge (%d,%d) (mkS %d %d %d %d %d))" % (tuple(o[2]) + tuple(o[3]))
+    for w in ops_wire(c["h"]).split(","):
+        f = w.split(":")
+        if f[0] == "W":
+            ops.append("Write %s %s %s" % (cp(f[1]), f[2], f[3]))
+        elif f[0] == "D":
+            ops.append("Delete %s" % cp(f[1]))
+        elif f[0] == "R":
+            ops.append("Rename %s %s" % (cp(f[1]), cp(f[2])))
+        elif f[0] == "P":
+            ops.append("Copy %s %s" % (cp(f[1]), cp(f[2])))
+        elif f[0] == "L":
+            ops.append("SetLanguages [%s]" % ";".join("(%s,%s)" % tuple(x.split("=")) for x in f[1].split("/") if x))
+        elif f[0] == "C":
+            if f[1] == "f":
+                k = "(KForge %s (mkS %s))" % (cp(f[2]), " ".join(f[3].split(".")))
+            elif f[1].startswith("x"):
+                k = "(KForeign %s %s (mkS %s))" % (f[1][1:], cp(f[2]), " ".join(f[3].split(".")))
             else:
-                k = {"g": "KGarbage", "h": "KBadHash", "r": "KRemove"}.get(o[1]) or "(KVersion %s)" % o[1][1:]
+                k = {"g": "KGarbage", "h": "KBadHash", "r": "KRemove"}.get(f[1]) or "(KVersion %s)" % f[1][1:]
             ops.append("Corrupt %s" % k)
-        else:
-            k = {"check": "Check", "summary": "StatsSummary", "files": "StatsFiles", "snapshot": "Snapshot"}[o[1]]
-            ops.append("Run %s [%s] %d" % (k, ";".join(cp(p) for p in o[2]), o[3]))
+        elif f[0] == "X":
+            k = {"check": "Check", "summary": "StatsSummary", "files": "StatsFiles", "snapshot": "Snapshot"}[f[1]]
+            ops.append("Run %s [%s] %s" % (k, ";".join(cp(p) for p in f[2].split("/") if p != "-"), f[3]))
     return "[" + "; ".join(ops) + "]"
 
 
